@@ -212,6 +212,21 @@ def check_selector(case, ctx: Ctx):
             again = call("pixels(join=True)[r] again", lambda: clr.pixels(join=True)[key])
             check([str(x) for x in again["chrom1"]] == full["chrom1"][lo:hi] and [str(x) for x in again["chrom2"]] == full["chrom2"][lo:hi],
                   lambda: f"pixels(join=True) after a non-converting selector on the same object: chrom1 = {again['chrom1'].tolist()[:5]}")
+        if table == "pixels-join":
+            # the joined pixel form of the matrix selector, for a window whose column range may start before its row range
+            # (stored records inside the window, each with the coordinates of its own two bins)
+            nb_ = gen.n_bins(case["bt"])
+            i0, i1 = sorted(((lo * 7 + 1) % (nb_ + 1), (hi * 5 + 2) % (nb_ + 1)))
+            j0, j1 = sorted(((lo * 3) % (nb_ + 1), (hi * 11 + 3) % (nb_ + 1)))
+            mp = call(f"matrix(as_pixels=True, join=True)[{i0}:{i1}, {j0}:{j1}]",
+                      lambda: clr.matrix(balance=False, as_pixels=True, join=True)[i0:i1, j0:j1])
+            br_ = model.bins_rows(case["bt"])
+            exp_ = [r for r in case["rows"] if i0 <= r[0] < i1 and j0 <= r[1] < j1]
+            got_ = [(str(a), int(b), int(c), str(d), int(e), int(f_), g) for a, b, c, d, e, f_, g in
+                    zip(mp["chrom1"], mp["start1"], mp["end1"], mp["chrom2"], mp["start2"], mp["end2"], mp["count"].tolist())] \
+                if all(k_ in mp.columns for k_ in ("chrom1", "start1", "end1", "chrom2", "start2", "end2", "count")) else list(mp.columns)
+            want_ = [(br_[r[0]][0], br_[r[0]][1], br_[r[0]][2], br_[r[1]][0], br_[r[1]][1], br_[r[1]][2], r[2]) for r in exp_]
+            check(got_ == want_, lambda: f"matrix(as_pixels=True, join=True)[{i0}:{i1}, {j0}:{j1}] = {got_[:4]}, the stored records of the window with their own bins are {want_[:4]}")
         if table == "bins" and (cols is None or cols == "chrom" or (isinstance(cols, list) and "chrom" in cols)):
             ch = res if isinstance(cols, str) else res["chrom"]
             check(isinstance(ch.dtype, pd.CategoricalDtype) and list(ch.cat.categories) == list(case["bt"]["names"]),
